@@ -428,7 +428,7 @@ func checkConcurrent(c ConcCase) error {
 }
 
 func genWorld(t *rapid.T) world.World {
-	w := world.Gen(t, world.Config{MaxRemotes: 4, MaxRegistry: 2, NFinders: nFinders, Clones: true, Meta: true})
+	w := world.Gen(t, world.Config{MaxRemotes: 4, MaxRegistry: 2, NFinders: nFinders, Clones: true, Meta: true, Diags: true})
 	if len(w.Registry) > 0 && len(w.Registry[0].Versions) > 0 && rapid.IntRange(0, 3).Draw(t, "twins?") == 0 {
 		// three versions of equal precedence (build metadata only), each pinned by its own Add call
 		real := w.Registry[0].Versions[0].Real
